@@ -80,8 +80,10 @@ def cases(tier):
         # and a symbolic state that polynomial cannot be built in budget -> Matrix-level twins only for the constant gates
         if has_matrix(c) and c["op"] in ("Custom", "U3", "RX", "RY", "RZ", "PhaseShift", "Creation", "Annihilation"):
             continue
-        if c["kind"] == "custom" and c["op"] == "Custom" and c["id"].startswith("custom/C0-own-V/state"):
-            continue  # renormalised symbolic vector + label test: obligation undecided by both solvers in budget
+        if c["kind"] == "custom" and c["op"] == "Custom" and (c["id"].startswith("custom/C0-own-V/") or c["id"].startswith("custom/S-V/")):
+            continue  # symbolic 3x3 operator on an own symbolic vector, renormalised, then the label test of contract():
+            # the obligation "e_k e_k^T = U v v^T U^T / |U v|^2 given U v || e_k" is left undecided by z3 and cvc5 in budget
+            # (measured: 2 x 120 s per case); the same operator inside product spaces (C1-*) IS decided and stays in
         if c["kind"] == "fock" and c["op"] == "Custom":
             continue  # a non-unitary, non-renormalising operator leaves no valid state: contraction is undefined on it
         if k % stride == 0:
